@@ -293,8 +293,8 @@ type dExec struct {
 	outstanding map[uint64]int
 	done        []chan error // per txn: result of the Commit goroutine
 	gids        []atomic.Int64
-	pending     int          // txn index of a commit started and (expected) waiting for a latch, -1
-	pendingHeld int          // key mask the waiting commit holds meanwhile
+	pending     int // txn index of a commit started and (expected) waiting for a latch, -1
+	pendingHeld int // key mask the waiting commit holds meanwhile
 	parkedTxn   int
 	releaseCh   chan struct{}
 	viols       []dViol
@@ -455,7 +455,7 @@ func (x *dExec) await(i int, parkedCh chan struct{}) (error, bool) {
 	case <-tm.C:
 		ok, diag := x.stuckDiagnosis(i)
 		if ok {
-			x.violate("d:stuck", fmt.Sprintf("Commit of T%d (start ts %d) does not return although no other commit is in progress: %s", i, x.start[i], diag))
+			x.violate("d:stuck", fmt.Sprintf("Commit of T%d (start ts %d) does not return (watchdog %v): %s", i, x.start[i], dWatchdog, diag))
 		} else {
 			x.incomplete = "part (d): a Commit call did not return within the watchdog and the dead-lock could not be diagnosed positively: " + diag
 		}
